@@ -146,6 +146,13 @@ def check(col, prog, tier, profile, fixture=None):
     # ---- H4
     rule_h4(col, prog, "H4", crate=crate, draw_fns=gens, sole_writer=True)
 
+    # ---- H6: the generator the priorities are drawn from (rlib/rand/src/lcg.rs is among the property's files)
+    rc = prog.crates.get("rlib_rand") if not fixture else None
+    if rc is not None:
+        from . import c14
+
+        c14.rule_lcg(col, rc, "H6", consts_from=[crate])
+
 
 def _link_store_blocks(b):
     """basic blocks of b with a MIR store into a TreapNode child link (field named left/right of node type)"""
@@ -314,10 +321,29 @@ def _provenance(col, prog, crate, R):
     if not any(w[0].key == R.new.key for w in writers) and any(w[0].name in may and w[3] == "aggregate" for w in writers):
         # the node is built by a private constructor helper that new forwards to: new is judged with it inlined
         writers = list(writers) + [(R.new, 0, None, "aggregate", None)]
+    # a constructor that takes the priority as a parameter and is fed only by new (`pub fn with_priority(item, priority)`
+    # behind `new(item) = with_priority(item, gen_priority())`) is judged through new, with it inlined
+    passthrough = []
+    for (b, bb, idx, kind, op) in writers:
+        if b.key == R.new.key or kind != "aggregate" or util.self_recursive(b):
+            continue
+        Ib = util.analyse(b)
+        pt = bool(Ib.final_states)
+        for st in Ib.final_states:
+            ret = util.ret_term(st)
+            pt = pt and ret[0] == "agg" and len(ret[2]) > R.PRIO and isinstance(ret[2][R.PRIO], tuple) and ret[2][R.PRIO][0] == "param"
+        callers = {x.key for x in crate.bodies if not x.is_closure and any(util.callee_key(t_) == b.key for _bb, t_ in x.calls())}
+        if pt and callers and callers <= {R.new.key}:
+            passthrough.append(b)
+    if passthrough and not any(w[0].key == R.new.key for w in writers):
+        writers = list(writers) + [(R.new, 0, None, "aggregate", None)]
     for (b, bb, idx, kind, op) in writers:
         loc = b.loc(bb, idx)
         if b.key != R.new.key and b.name in may and b.name != R.new.name and kind == "aggregate":
             # a private constructor helper called only from new: judged through new's inlined analysis
+            continue
+        if b in passthrough:
+            col.ok("H3", loc, "%s|priority-parameter" % fk(b), "builds the node from a priority parameter; its only caller in the crate is TreapNode::new", nontrivial=False)
             continue
         if b.key != R.new.key:
             col.violation("H3", "%s|writes-priority" % fk(b), loc, "%s writes TreapNode::priority (%s); only TreapNode::new may, with a fresh random draw" % (b.path, kind))
@@ -325,7 +351,7 @@ def _provenance(col, prog, crate, R):
         if kind != "aggregate":
             col.violation("H3", "%s|writes-priority-%s" % (fk(b), kind), loc, "TreapNode::new modifies priority after construction")
             continue
-        I = R.A(b) if hasattr(R, "A") else util.analyse(b)
+        I = (util.analyser(list(getattr(R, "helpers", [])) + passthrough, features=("fncall",))(b) if passthrough else R.A(b)) if hasattr(R, "A") else util.analyse(b)
         ok = False
         why = "the priority operand is not a call result"
         for st in I.final_states:
